@@ -455,6 +455,9 @@ func (g *batchGen) batch() *BatchSpec {
 	if !g.kids || g.r.Chance(0.6) {
 		b.Ops = g.ops("v", 5)
 	}
+	if g.alloc > 0 && g.r.Chance(0.5) {
+		b.AllocLate = 1 + g.r.Intn(2)
+	}
 	if g.kids {
 		// child names: a small tree, two names per level, two levels
 		for _, name := range g.names {
